@@ -190,6 +190,27 @@ Theorem C13_revoked_complete_above :
 Proof. exact revoked_complete_above. Qed.
 Print Assumptions C13_revoked_complete_above.
 
+(* a role created again over its soft-deleted predecessor (NewRole / NewRoleNoChannels, the constructor db.UpdatePrincipal
+   uses) keeps the predecessor's channel history, whatever it is granted now: this is what keeps "tracked" -- hence
+   C13_revoked_complete and C13_granted_periods_cover -- alive across DeleteRole; CreateRole.  The harness monitor
+   recreate_keeps_history is its Go reflection on the persisted role documents (default and named collections). *)
+Theorem C13_recreated_role_keeps_history :
+  forall (g : gstate) (r : N) (new_ : tset) (p : princ),
+    role_get r (g_roles g) = Some (p, true) ->
+    role_get r (g_roles (step g (CreateRole r new_))) = Some (mkPrinc new_ 0 (p_hist p), false)
+    /\ forall (s : N) (p' : princ) (del : bool),
+         role_get r (g_roles (step (step g (CreateRole r new_)) (InvalRole r s))) = Some (p', del) ->
+         del = false /\ p_hist p' = p_hist p.
+Proof.
+  intros g r new_ p Hget.
+  assert (role_get r (g_roles (step g (CreateRole r new_))) = Some (mkPrinc new_ 0 (p_hist p), false)) as H1.
+  { cbn [step]. rewrite Hget. cbn [g_roles]. rewrite role_get_upd_same, Hget. reflexivity. }
+  split; [exact H1 |]. intros s p' del H2. rewrite step_inval_role_get, N.eqb_refl, H1 in H2.
+  cbn [option_map inval_role] in H2. inversion H2; subst. split; [reflexivity |].
+  unfold invalidate. destruct (p_inval _ =? 0); reflexivity.
+Qed.
+Print Assumptions C13_recreated_role_keeps_history.
+
 (* ---- the merge ---- *)
 (* over ascending channel logs the un-limited response is strictly ascending w.r.t. SequenceID.Before: one row per token *)
 Theorem C13_response_ascending :
